@@ -28,7 +28,7 @@ REQUIRED_COUNTERS = [
     "register", "reregister", "validate.registered.accept", "validate.registered.reject",
     "validate.unregistered.warned", "validate.nonstring", "consultations", "builtin.uuid.accepted",
     "builtin.datetime.accepted", "kind.String", "kind.Element", "kind.parsed_typed", "kind.parsed_untyped",
-    "stale_checker_silent",
+    "stale_checker_silent", "early_reregistration",
 ]
 
 ANCHORS = [
@@ -230,7 +230,7 @@ def gen_rfc3339(rng):
     return text, prod
 
 
-def builtins(ctx, sut):
+def builtins(ctx, sut, skip=None):
     rng = ctx.rng
     elements = {
         "uuid": [sut.String(format="uuid"), sut.Element(format="uuid"),
@@ -244,6 +244,8 @@ def builtins(ctx, sut):
         else:
             text, prod = gen_rfc3339(rng)
             fmt = "date-time"
+        if fmt == skip:
+            continue  # this built-in was replaced by the harness in this process
         element = elements[fmt][idx % len(elements[fmt])]
         ctx.evaluation()
         ctx.nontrivial("b:" + text)
@@ -273,16 +275,50 @@ def builtins(ctx, sut):
     # non-strings are never rejected on account of a built-in format
     for value in (None, 1, 1.5, True, [], {}, ["2020-01-01T00:00:00Z"]):
         for fmt in ("uuid", "date-time"):
+            if fmt == skip:
+                continue
             outcome = sut.call(sut.Element(format=fmt), value)[0]
             ctx.evaluation()
             if outcome != "ok":
                 ctx.witness("builtin_rejects_nonstring", {"format": fmt, "value": value}, outcome)
 
 
+def early_reregistration(ctx, sut):
+    """Odd shards: BEFORE the first format validation of this fresh process a built-in name is registered
+    again; the replacement must be the checker that is consulted from the very first validation on."""
+    from statham.schema.validation.format import format_checker  # pylint: disable=import-outside-toplevel
+
+    log = []
+    replaced = "uuid" if ctx.shard % 4 == 1 else "date-time"
+    checker = Checker(900000 + ctx.shard, log, "hash")
+    format_checker.register(replaced)(checker)
+    ctx.count("early_reregistration")
+    for value in ["ab", "abc", "123e4567-e89b-12d3-a456-426614174000", "1990-12-31T23:59:59Z", "", "zz"]:
+        for element in (sut.String(format=replaced), sut.Element(format=replaced)):
+            del log[:]
+            outcome = sut.call(element, value)[0]
+            ctx.evaluation()
+            want = Checker(checker.serial, [], "hash")(value)
+            problems = []
+            if not any(ser == checker.serial and val == value for ser, val in log):
+                problems.append("the re-registered checker was not consulted")
+            if want != (outcome == "ok"):
+                problems.append(f"verdict {outcome} but the registered checker returns {want}")
+            if problems:
+                ctx.witness("register_semantics", {"trace": [["register", replaced, "hash", checker.serial],
+                                                             ["validate", "String", replaced, value, outcome]],
+                                                   "name": replaced, "value": value, "kind": "early"},
+                            f"{replaced!r} re-registered before the first validation of the process: "
+                            + "; ".join(problems))
+                return replaced
+    return replaced
+
+
 def run_shard(ctx):
     from vlib import sut  # pylint: disable=import-outside-toplevel
 
-    builtins(ctx, sut)  # before histories (which may re-register anything but not these names)
+    replaced = early_reregistration(ctx, sut) if ctx.shard % 2 else None
+    builtins(ctx, sut, skip=replaced)  # before histories (which may re-register anything but not these names)
     histories(ctx, sut)
 
 
